@@ -8,6 +8,7 @@ KINDS = {
     'encoder_inj': 'contracts.encoders:replay_inj_data',
     'lookup_int': 'contracts.encoders:replay_lookup_data',
     'table': 'contracts.encoders:replay_table_data',
+    'reverse': 'contracts.encoders:replay_reverse_data',
 }
 
 
@@ -16,6 +17,9 @@ def register(kind, target):
 
 
 def run(ctx, kind, payload, model):
+    if kind not in KINDS:
+        for mod in ('contracts.relocate',):
+            importlib.import_module(mod)
     target = KINDS[kind]
     modname, fn = target.split(':')
     f = getattr(importlib.import_module(modname), fn)
